@@ -90,6 +90,14 @@ pub struct Params {
     /// switches from the rank of the packed word directly (BDDKeyLayout.ks_glwe_layout = None)
     #[serde(default)]
     pub direct_ks: bool,
+    /// decomposition digit size of the automorphism, GGLWE-to-GGSW and rank-reduction keys (1 = the suite; 2 = half the
+    /// rows, each spanning two limbs). block_size 1 means a plain binary LWE secret (standard CGGI rotation path).
+    #[serde(default = "one_u32")]
+    pub key_dsize: u32,
+}
+
+fn one_u32() -> u32 {
+    1
 }
 
 impl Params {
@@ -104,6 +112,7 @@ impl Params {
             k_ggsw: 39,
             ggsw_dnum: 2,
             direct_ks: false,
+            key_dsize: 1,
         }
     }
     pub fn glwe_infos(&self) -> GLWELayout {
@@ -130,6 +139,7 @@ impl Params {
     pub fn bdd_key_layout(&self) -> BDDKeyLayout {
         let n = Degree(self.n_glwe);
         let rank = Rank(self.rank);
+        let ds = self.key_dsize.max(1);
         BDDKeyLayout {
             cbt_layout: CircuitBootstrappingKeyLayout {
                 brk_layout: BlindRotationKeyLayout {
@@ -145,16 +155,16 @@ impl Params {
                     base2k: Base2K(11),
                     k: TorusPrecision(52),
                     rank,
-                    dnum: Dnum(4),
-                    dsize: Dsize(1),
+                    dnum: Dnum(4 / ds),
+                    dsize: Dsize(ds),
                 },
                 tsk_layout: GGLWEToGGSWKeyLayout {
                     n,
                     base2k: Base2K(10),
                     k: TorusPrecision(52),
                     rank,
-                    dnum: Dnum(4),
-                    dsize: Dsize(1),
+                    dnum: Dnum(4 / ds),
+                    dsize: Dsize(ds),
                 },
             },
             ks_glwe_layout: if self.direct_ks {
@@ -166,8 +176,8 @@ impl Params {
                     k: TorusPrecision(20),
                     rank_in: rank,
                     rank_out: Rank(1),
-                    dnum: Dnum(3),
-                    dsize: Dsize(1),
+                    dnum: Dnum(if ds == 1 { 3 } else { 2 }),
+                    dsize: Dsize(ds),
                 })
             },
             ks_lwe_layout: GLWEToLWEKeyLayout {
@@ -222,7 +232,11 @@ where
         module.glwe_secret_prepare(&mut sk_prep, &sk_glwe);
 
         let mut sk_lwe = LWESecret::alloc(Degree(p.n_lwe));
-        sk_lwe.fill_binary_block(p.block_size as usize, &mut Source::new(SEED_SK_LWE));
+        if p.block_size > 1 {
+            sk_lwe.fill_binary_block(p.block_size as usize, &mut Source::new(SEED_SK_LWE));
+        } else {
+            sk_lwe.fill_binary_prob(0.5, &mut Source::new(SEED_SK_LWE));
+        }
         let sk_lwe_clear = sk_lwe.raw().to_vec();
 
         let layout = p.bdd_key_layout();
